@@ -172,6 +172,7 @@ def run_sequence(case, env):
         descs = []
         goodreads = 0
         away_step = rng.randrange(case['len']) if case['k'] % 4 == 1 else -1
+        switch_step = rng.randrange(case['len']) if case['k'] % 2 == 1 else -1
         for step in range(case['len']):
             if step == away_step:
                 # an access that fails while *opening* the data file (the directory is temporarily somewhere else);
@@ -186,6 +187,32 @@ def run_sequence(case, env):
                         kept_exc.append(e)
                 os.rename(d / 'away', path)
                 descs.append(('X', 'failed-open'))
+            if readonly and step == switch_step:
+                # the read-only handle is switched to r+ *inside* its own open context and written through: the write may
+                # be refused, but if it is accepted it has to be a real one (visible outside, to a fresh handle, in the file)
+                res.count('mon.mode_switch_in_context')
+                accepted = False
+                with a.open_array():
+                    a.accessmode = 'r+'
+                    try:
+                        a[...] = 7
+                        accepted = True
+                    except Exception as e:
+                        kept_exc.append(e)
+                a.accessmode = 'r'
+                descs.append(('S', 'accepted' if accepted else 'refused'))
+                if accepted:
+                    ref[...] = 7
+                for tag, arr in (('live', a[:]), ('fresh', D.Array(path)[:]),
+                                 ('rawfile', np.frombuffer((path / 'arrayvalues.bin').read_bytes(), dtype=dtype).reshape(shape))):
+                    if not bits_equal(np.ascontiguousarray(arr), ref):
+                        res.fail(f'mode-switch-in-context:{"accepted-write-lost" if accepted else "refused-write-applied"}:{tag}',
+                                 f'step {step}: a[...] = 7 after accessmode = "r+" inside open_array() of an r handle was '
+                                 f'{"accepted" if accepted else "refused"}, but the {tag} view is {describe(arr)}, expected {describe(ref)}',
+                                 step=step)
+                        break
+                if res.fails:
+                    break
             desc, idx = make_index(rng, shape)
             is_assign = rng.random() < 0.35
             descs.append(('A' if is_assign else 'R', desc))
